@@ -9,8 +9,62 @@ FINISH = dict(level="proof", rule=(
     "histories of 20 (thorough 200) operations drawn from: ptrace / namespace / container runs of a 7-task tree ignoring all "
     "signals (own sessions in the pid-namespace runners) cancelled after 150..300 ms, runs that end by themselves, container "
     "Execve failing before fork / at sync (failing callback, sync before and after exec) / after sync (missing executable), Open "
-    "batches with failing items, launches that fail at exec, Build + Destroy, Build that fails after the container was started.  "
-    "Non-trivial: a history with at least one cancelled and one failing operation; distinct = distinct histories."))
+    "batches with failing items, launches that fail at exec, Build + Destroy, Build that fails after the container was started; "
+    "Open batches of 1..5 entries whose targets are of every kind a path can name (directories, mount points, device nodes, fifos, "
+    "links, sockets, missing and regular files; read / write / create flags; refused entries first, in the middle, last, alone), "
+    "Reset (1..3 times) after a program planted files of every kind, in environments of four shapes (plain; read-only data bound "
+    "below the work directory; a tmpfs below the second tmpfs; a writable store some levels below the work "
+    "directory and a device node in it) -- in the last three Reset fails every time.  Besides the counters at the end of a history, the "
+    "descriptors of the container init are counted right before and right after every Open / Reset (each time once the init "
+    "answered a ping) and must be equal.  Non-trivial: a history with at least one cancelled and one failing operation; distinct = distinct histories."))
+
+O = dict(r=os.O_RDONLY, w=os.O_WRONLY, rw=os.O_RDWR, c=os.O_CREAT | os.O_RDWR, rn=os.O_RDONLY | os.O_NONBLOCK, a=os.O_WRONLY | os.O_APPEND)
+# (path, kind of what the path names once the planting program has run -- in some shapes of environment some are missing)
+TARGETS = [("/w", "dir"), ("/tmp", "dir"), ("/", "dir"), ("/w/d1", "dir"), ("/tmp/td", "dir"), ("/w/data", "mountpoint"), ("/tmp/sub", "mountpoint"),
+           ("/w/a/b/store", "mountpoint"), ("/dev/null", "device"), ("/dev/zero", "device"), ("/w/null", "device"), ("/w/ff", "fifo"), ("/tmp/td/ff", "fifo"),
+           ("/w/sl", "link-to-file"), ("/w/sld", "link-to-dir"), ("/w/dangling", "dangling-link"), ("/w/sock", "socket"),
+           ("/w/reg", "regular"), ("/tmp/td/f3", "regular"), ("/w/data/input.txt", "regular-readonly"), ("/w/nodir/x", "missing"),
+           ("/w/fresh", "missing")]
+NOT_FILES = [t for t in TARGETS if t[1] not in ("regular", "regular-readonly", "missing")]
+
+
+def open_batch(r):
+    """a batch of 1..5 entries; at least one names something that is not a regular file, at any position"""
+    n = r.choice([1, 1, 2, 3, 5])
+    ts = [r.choice(TARGETS) for _ in range(n)]
+    ts[r.randrange(n)] = r.choice(NOT_FILES)
+    out = []
+    for path, kind in ts:
+        fl = r.choice(["r", "r", "w", "rw", "c", "rn", "a"])
+        if kind == "fifo" and fl in ("w", "a"):
+            fl = "r"   # a write-only open of a fifo without reader would rightly block the caller: not a residue question
+        if path == "/w/fresh":
+            path, fl = "/w/fresh%d" % r.randrange(4), "c"
+        out.append({"path": path, "names": kind, "flag": O[fl], "flag_name": fl, "mkdir_all": r.random() < 0.15})
+    return out
+
+
+def env_ops(r, n):
+    ops = []
+    for _ in range(n):
+        if r.random() < 0.5:
+            ops.append({"kind": "open_kinds", "args": [], "timeout_ms": 5000, "targets": open_batch(r), "plant": r.random() < 0.8})
+        else:
+            ops.append({"kind": "reset", "args": [], "timeout_ms": 5000, "times": r.choice([1, 1, 2, 3]), "plant": r.random() < 0.8})
+    return ops
+
+
+def blame(base, trace, final, ops, log):
+    """operations after which the descriptor count of the host never again came down to what it was before them"""
+    if not trace or base is None or final is None:
+        return []
+    seq = [base] + list(trace) + [final]
+    out = []
+    for i in range(len(trace)):
+        later = min(seq[i + 1:])
+        if later > seq[i]:
+            out.append({"op_index": i, "op": ops[i], "outcome": log[i] if i < len(log) else None, "host_fds_before": seq[i], "lowest_host_fds_ever_after": later})
+    return out[:8]
 
 
 def run(c):
@@ -53,6 +107,8 @@ def run(c):
         {"kind": "buildfail_conf", "args": [], "timeout_ms": 3000},
         {"kind": "buildfail_init", "args": [], "timeout_ms": 3000},
     ]
+    # the new kinds take part in every history
+    pool += env_ops(c.rng("envops-pool"), 6)
     cases = []
     nh = 4 if c.quick() else 12
     for h in range(nh):
@@ -65,6 +121,17 @@ def run(c):
     cases.append({"id": nh, "token": "tk%d_%d_b" % (os.getpid(), c.seed), "shared_env": False,
                   "ops": [{"kind": "buildfail", "args": [], "timeout_ms": 3000}] * 3 + [{"kind": "buildfail_conf", "args": [], "timeout_ms": 3000}] * 3 +
                          [{"kind": "buildfail_init", "args": [], "timeout_ms": 3000}] * 2 + [{"kind": "builddestroy", "args": [], "timeout_ms": 3000}] * 3})
+    # histories in environments with mount points below the tmpfs mounts (Reset fails there), dense in environment operations
+    r2 = c.rng("shaped-histories")
+    shapes = ["robind", "nested_tmpfs", "deep_bind", "plain"]
+    for j in range(len(shapes) if c.quick() else 2 * len(shapes)):
+        n = 8 if c.quick() else 60
+        ops = env_ops(r2, n) + [dict(r2.choice(pool)) for _ in range(n)]
+        r2.shuffle(ops)
+        if j % 2 == 1:
+            # ... also with the failing operation as the very last of the history
+            ops.append(env_ops(r2, 1)[0])
+        cases.append({"id": len(cases), "token": "tk%d_%d_s%d" % (os.getpid(), c.seed, j), "shared_env": True, "env_shape": shapes[j % len(shapes)], "ops": ops})
     obs = c.run_harness(exe, cases, env=env, timeout=1800)
     for x, o in zip(cases, obs):
         if "harness_err" in o:
@@ -79,12 +146,24 @@ def run(c):
         if o.get("left_after_run"):
             c.finding_or_violation({"kind": "residue", "what": "children of the container init (zombies included) are left when a failed or cancelled run has returned",
                                     "count": o["left_after_run"]}, {"history": x["ops"], "after": o.get("left_after_which"), "log": o["log"]}, klass="residue:init-children-after-run")
+        shape = x.get("env_shape", "plain")
+        for d in o.get("init_fds_deviations") or []:
+            # an environment operation has returned (and the init has answered a ping since): the init holds as many descriptors as before
+            c.finding_or_violation({"kind": "residue", "what": "descriptors of the container init are not back at baseline when an Open / Reset has returned",
+                                    "op_kind": d["op"]["kind"], "env_shape": shape},
+                                   {"env_shape": shape, "failing_operation": d, "expected": "init_fds_after_op == init_fds_before_op (== init_fds_baseline)",
+                                    "history_up_to_it": x["ops"][:d["op_index"] + 1], "log_up_to_it": o["log"][:d["op_index"] + 1],
+                                    "init_fds_trace": o.get("init_fds_trace")}, klass="residue:init-fds-after-op")
         diff = {k: (o["base"][k], o["after"][k]) for k in o["base"] if o["after"].get(k) != o["base"][k]}
         if diff or o["token_procs"]:
             # which kinds of operations the history contained
             c.finding_or_violation({"kind": "residue", "changed": {k: list(v) for k, v in diff.items()}, "surviving_processes": o["token_procs"],
-                                    "history_kinds": sorted(set(kinds))}, {"history": x["ops"], "log": o["log"]},
+                                    "history_kinds": sorted(set(kinds))}, {"history": x["ops"], "log": o["log"], "env_shape": shape,
+                                    "observed_vs_expected": {k: {"baseline": v[0], "after_history": v[1]} for k, v in diff.items()},
+                                    "operations_that_raised_host_descriptors_for_good": blame(o["base"].get("fds"), o.get("host_fds_trace"), o["after"].get("fds"), x["ops"], o["log"]),
+                                    "init_fds_trace": o.get("init_fds_trace")},
                                    klass="residue:" + ",".join(sorted(diff)) + (":procs" if o["token_procs"] else ""))
     c.sample({"history": cases[0]["ops"][:6], "baseline": obs[0]["base"], "after": obs[0]["after"], "surviving": obs[0]["token_procs"]})
     c.cov["histories"] = len(cases)
+    c.cov["history_elapsed_ms"] = [[x.get("env_shape", "plain"), len(x["ops"]), o.get("elapsed_ms")] for x, o in zip(cases, obs)]
     c.cov["operations"] = sum(len(x["ops"]) for x in cases)
